@@ -1,8 +1,8 @@
 #!/bin/bash
 # usage: try_seed.sh <seed-dir-name> <property>...   – applies the seeded patch to /repo, runs the quick checks, reverts
 seed=$1; shift
-cd /verif
-git -C ${VERIF_REPO:-/repo} apply /verif/seeded/$seed/patch.diff || { echo "PATCH DOES NOT APPLY"; exit 9; }
+ROOT="$(cd "$(dirname "$0")/.." && pwd)"; cd "$ROOT"
+git -C ${VERIF_REPO:-/repo} apply $ROOT/seeded/$seed/patch.diff || { echo "PATCH DOES NOT APPLY"; exit 9; }
 for p in "$@"; do
   out=$(./check $p quick 2>&1); rc=$?
   echo "== seed=$seed check=$p exit=$rc"
